@@ -16,3 +16,9 @@ import ClockBound.Properties.CodeTieDispatch
 #print axioms ClockBound.CodeTieDispatch.records_eq
 #print axioms ClockBound.CodeTieDispatch.iteration_eq
 #print axioms ClockBound.CodeTieDispatch.iteration_abort
+#print axioms ClockBound.CodeTiePoller.iteration_send_fails
+#print axioms ClockBound.CodeTiePoller.iteration_clock_fails
+#print axioms ClockBound.CodeTiePoller.loop_eq
+#print axioms ClockBound.CodeTiePoller.loop_send_fails
+#print axioms ClockBound.CodeTiePoller.pollRun_panics_iff
+#print axioms ClockBound.CodeTiePoller.run_eq
